@@ -21,13 +21,13 @@ CLAIM = dict(
           "rounding are outside the model."),
     ref="5.17", technique="Coq proof (symbolic evaluation of the shape pipeline at rank 3/4, induction-free arithmetic) + differential correspondence with the extracted model", extra="")
 RULE = ("seeded samples of the property's parameter product: batch 1..2, C,O 1..4 with every common divisor as groups, spatial 1..7, "
-        "kernel 1..3, stride 1..3, padding 0..2, dilation 1..2 (uniform and per-axis), optional bias, positive output only; four argument-kind "
-        "variants (None defaults / run-time scalars / per-axis arrays / compile-time groups); pooling: rank 2..4, H,W 1..7, kernel 1..3, "
+        "kernel 1..3, stride 1..3, padding 0..2, dilation 1..2 (uniform and per-axis), optional bias, positive output only; five argument-kind "
+        "variants (None defaults / run-time scalars / per-axis arrays / compile-time groups / fixed-dimension operands); pooling: rank 2..4, H,W 1..7, kernel 1..3, "
         "stride 1..3, both ceil modes, half of the arrays all-negative, three argument kinds; float routines on dim 2..4 arrays. "
         "non-trivial = a spatial extent > 1 and (kernel > 1 or more than one channel); distinct = distinct case lines")
 THEOREM_STATUS = {
     "proved": ["C17_conv2d_out_shape", "C17_conv1d_out_shape", "C17_sliding_window_elem", "C17_expand_elem", "C17_pad_elem",
-               "C17_conv_reshape_maps", "C17_conv_group_on_domain", "C17_pool_out_shape_on_domain", "C17_pool_extent_meaning"],
+               "C17_conv_reshape_maps", "C17_conv_group_on_domain", "C17_pool_out_shape_on_domain", "C17_pool_extent_meaning", "C17_pool_window"],
     "partial": [],
     "refuted": ["C17_conv_batch_refuted", "C17_conv_group_refuted", "C17_conv_dilation_pair_refuted", "C17_pool_out_shape_ceil_refuted"]}
 ASSUMPTIONS = ["shape_pool2d's float division is modelled as exact rational division (true for extents below 2^23)",
@@ -58,8 +58,8 @@ def conv_case(rng, nd, force=None):
     C = rng.randint(1, 4); O = rng.randint(1, 4)
     g = rng.choice([d for d in range(1, 5) if C % d == 0 and O % d == 0])
     sp = [rng.randint(1, 7) for _ in range(nd)]; k = [rng.randint(1, 3) for _ in range(nd)]
-    variant = force or rng.choice(["plain", "scalar", "scalar", "pair", "pair", "ctg"])
-    if variant in ("scalar", "ctg"):
+    variant = force or rng.choice(["plain", "scalar", "scalar", "pair", "pair", "ctg", "fd"])
+    if variant in ("scalar", "ctg", "fd"):
         s = [rng.randint(1, 3)] * nd; p = [rng.randint(0, 2)] * nd; d = [rng.randint(1, 2)] * nd
         if variant == "ctg" and g > 2: variant = "scalar"
     elif variant == "pair":
@@ -182,7 +182,8 @@ def classify(line, impl, spec, model):
         arrs = _arrays(line); ish, wsh = arrs[0][0], arrs[1][0]; g = int(t[-1][2:]); variant = t[1][2:]
         dil = _lists(line)[2]
         if ish[0] > 1:
-            return "conv_batch_gt1" if (failed and model == "trap") else None
+            # the refused reshape is unwrapped: undefined behaviour (trap, Nothing, or a garbage-shaped value on fixed-dim operands)
+            return "conv_batch_gt1" if model == "trap" else None
         if g > 1 and wsh[0] // g > 1 and same_as_model:
             return "conv_groups_interleaved"
         if variant == "pair" and len(set(dil)) > 1 and same_as_model:
